@@ -123,6 +123,11 @@ Proof. destruct c, k as [|[]]; cbn; lia. Qed.
 Lemma proj_empty k : proj k empty_unit = 0.
 Proof. destruct k as [|[]]; reflexivity. Qed.
 
+(** Serialisation (the cut to the top 100, the time average) does not touch
+    the total or any result category. *)
+Lemma proj_ser k u : proj k (ser u) = proj k u.
+Proof. destruct k as [|[]]; reflexivity. Qed.
+
 (** [C09_one_category], step form: an accepted update adds one to the total
     and to exactly one category, and nothing to the other four. *)
 Lemma update_one_category s e :
@@ -157,12 +162,17 @@ Qed.
 Definition ghost := Z -> ctr -> Z.
 Definition g0 : ghost := fun _ _ => 0.
 
+(** Where the reset handler's clear() stands: not running; file closed and db
+    pointer nil; new database opened, current unit not yet replaced. *)
+Inductive phase := PNormal | PClosed | PReopened.
+
 Record gs := {
   g_clock : Z;
   g_st : state;
   g_ev : ghost;
   g_low : Z;
-  g_raised : bool
+  g_raised : bool;
+  g_phase : phase
 }.
 
 (** The category an update is counted in, if it is accepted. *)
@@ -178,21 +188,23 @@ Definition ev_step (s : state) (o : op) (ev : ghost) : ghost :=
       end
   | OClear _ => g0
   | OSetDays d _ => if d =? 0 then g0 else ev
+  | OClearReopen => fun i k => if i =? cur_id s then ev i k else 0   (* the file is gone, the current unit is not *)
+  | OClearFinish _ => fun i k => if i =? cur_id s then 0 else ev i k  (* the current unit is dropped *)
   | _ => ev
   end.
 
 Definition low_step (s : state) (o : op) (low : Z) : Z :=
   match o with
-  | OFlush id => if (lim s =? 0) || (cur_id s =? id) then low else Z.max low (id - lim s)
+  | OFlush id => if (lim s =? 0) || (cur_id s =? id) || dbnil s then low else Z.max low (id - lim s)
   | ORestart id => Z.max low (id - lim s)
-  | OClear _ => 0
+  | OClear _ | OClearReopen => 0
   | OSetDays d _ => if d =? 0 then 0 else low
   | _ => low
   end.
 
 Definition raised_step (s : state) (o : op) (r : bool) : bool :=
   match o with
-  | OClear _ => false
+  | OClear _ | OClearReopen => false
   | OSetDays d _ => if d =? 0 then false else r || (lim s <? lim (step s o))
   | OPutConfig _ _ => r || (lim s <? lim (step s o))
   | _ => r
@@ -201,8 +213,29 @@ Definition raised_step (s : state) (o : op) (r : bool) : bool :=
 (** The clock value an operation reads, if it reads the clock. *)
 Definition op_id (o : op) : option Z :=
   match o with
-  | OFlush id | ORestart id | OClear id | OSetDays _ id => Some id
+  | OFlush id | ORestart id | OClear id | OSetDays _ id | OClearFinish id => Some id
   | _ => None
+  end.
+
+Definition phase_step (o : op) (ph : phase) : phase :=
+  match o with
+  | OClearClose => PClosed
+  | OClearReopen => PReopened
+  | OClearFinish _ => PNormal
+  | _ => ph
+  end.
+
+(** What may happen in which phase: the steps of the reset in their order;
+    between them only updates and flushes (the other state-changing handlers
+    are serialised with the reset by home.controlLock, a restart during a
+    reset is outside the histories). *)
+Definition phase_ok (ph : phase) (o : op) : Prop :=
+  match o with
+  | OUpdate _ | OFlush _ => True
+  | OClearClose => ph = PNormal
+  | OClearReopen => ph = PClosed
+  | OClearFinish _ => ph = PReopened
+  | _ => ph = PNormal
   end.
 
 Definition gstep (g : gs) (o : op) : gs :=
@@ -210,10 +243,11 @@ Definition gstep (g : gs) (o : op) : gs :=
      g_st := step (g_st g) o;
      g_ev := ev_step (g_st g) o (g_ev g);
      g_low := low_step (g_st g) o (g_low g);
-     g_raised := raised_step (g_st g) o (g_raised g) |}.
+     g_raised := raised_step (g_st g) o (g_raised g);
+     g_phase := phase_step o (g_phase g) |}.
 
 Definition ginit (id ms : Z) (en : bool) : gs :=
-  {| g_clock := id; g_st := init id ms en; g_ev := g0; g_low := 0; g_raised := false |}.
+  {| g_clock := id; g_st := init id ms en; g_ev := g0; g_low := 0; g_raised := false; g_phase := PNormal |}.
 
 Definition grun (g : gs) (h : list op) : gs := fold_left gstep h g.
 
@@ -223,16 +257,20 @@ Proof.
   change (grun g (o :: h)) with (grun (gstep g o) h). rewrite IH. reflexivity.
 Qed.
 
-(** Histories: the clock never goes back and stays a uint32. *)
-Fixpoint wf_hist (c : Z) (h : list op) : Prop :=
+(** Histories: the clock never goes back and stays a uint32; the steps of a
+    reset come in their order with only updates and flushes between them. *)
+Fixpoint wf_from (c : Z) (ph : phase) (h : list op) : Prop :=
   match h with
   | [] => True
   | o :: h' =>
+      phase_ok ph o /\
       match op_id o with
-      | Some id => c <= id < max_id /\ wf_hist id h'
-      | None => wf_hist c h'
+      | Some id => c <= id < max_id /\ wf_from id (phase_step o ph) h'
+      | None => wf_from c (phase_step o ph) h'
       end
   end.
+
+Definition wf_hist (c : Z) (h : list op) : Prop := wf_from c PNormal h.
 
 Definition init_ok (id ms : Z) : Prop := min_id <= id < max_id /\ valid_ivl ms = true.
 
@@ -253,11 +291,14 @@ Record Inv (g : gs) : Prop := {
   i_onecat : forall i, g_ev g i CTotal =
                g_ev g i (CCat NF) + g_ev g i (CCat F) + g_ev g i (CCat SB) +
                g_ev g i (CCat SS) + g_ev g i (CCat P);
-  i_low : g_raised g = false -> g_low g <= cur_id (g_st g) - lim (g_st g)
+  i_low : g_raised g = false -> g_low g <= cur_id (g_st g) - lim (g_st g);
+  i_nil : dbnil (g_st g) = true <-> g_phase g = PClosed;
+  i_reop : g_phase g = PReopened -> db_get (cur_id (g_st g)) (db (g_st g)) = None
 }.
 
-Definition op_ok (c : Z) (o : op) : Prop :=
-  match op_id o with Some id => c <= id < max_id | None => True end.
+Definition op_ok (g : gs) (o : op) : Prop :=
+  phase_ok (g_phase g) o /\
+  match op_id o with Some id => g_clock g <= id < max_id | None => True end.
 
 Lemma inv_init id ms en : init_ok id ms -> Inv (ginit id ms en).
 Proof.
@@ -265,19 +306,21 @@ Proof.
   constructor; cbn; unfold lim, min_id, max_id; cbn; intros; try assumption; try reflexivity; try lia; try discriminate.
   - apply proj_empty.
   - right; reflexivity.
+  - split; discriminate.
 Qed.
 
 (** Moving the clock only. *)
 Lemma inv_clock g c' :
   Inv g -> g_clock g <= c' < max_id ->
-  Inv {| g_clock := c'; g_st := g_st g; g_ev := g_ev g; g_low := g_low g; g_raised := g_raised g |}.
+  Inv {| g_clock := c'; g_st := g_st g; g_ev := g_ev g; g_low := g_low g; g_raised := g_raised g;
+         g_phase := g_phase g |}.
 Proof. intros [] Hc. constructor; cbn; auto. lia. Qed.
 
 (** Changing the configuration only. *)
 Lemma inv_conf g c' ms en :
   Inv g -> g_clock g <= c' < max_id -> valid_ivl ms = true ->
   Inv {| g_clock := c'; g_st := with_conf (g_st g) ms en; g_ev := g_ev g; g_low := g_low g;
-         g_raised := g_raised g || (lim (g_st g) <? ms / ms_hour) |}.
+         g_raised := g_raised g || (lim (g_st g) <? ms / ms_hour); g_phase := g_phase g |}.
 Proof.
   intros [] Hc Hms. constructor; cbn; auto. lia.
   intros Hr. apply orb_false_iff in Hr. destruct Hr as [Hr Hl]. apply Z.ltb_ge in Hl.
@@ -286,19 +329,20 @@ Qed.
 
 (** Clearing. *)
 Lemma inv_clear g id en :
-  Inv g -> g_clock g <= id < max_id ->
+  Inv g -> g_clock g <= id < max_id -> g_phase g = PNormal ->
   Inv {| g_clock := id;
          g_st := clear (with_conf (g_st g) (lim_ms (g_st g)) en) id;
-         g_ev := g0; g_low := 0; g_raised := false |}.
+         g_ev := g0; g_low := 0; g_raised := false; g_phase := g_phase g |}.
 Proof.
-  intros [] Hc. pose proof (lim_bounds _ i_lim0) as HL. unfold min_id, max_id in *.
+  intros [] Hc Hp. pose proof (lim_bounds _ i_lim0) as HL. unfold min_id, max_id in *.
   constructor; cbn; unfold lim, min_id, max_id; cbn; intros; try assumption; try reflexivity; try lia; try discriminate; auto.
-  apply proj_empty.
+  - apply proj_empty.
+  - rewrite Hp. split; discriminate.
 Qed.
 
 Lemma inv_update g e : Inv g -> Inv (gstep g (OUpdate e)).
 Proof.
-  intros H. unfold gstep; cbn [op_id step ev_step low_step raised_step].
+  intros H. unfold gstep; cbn [op_id step ev_step low_step raised_step phase_step].
   unfold update, counted. destruct (accepts (g_st g) e); [|destruct g; exact H].
   destruct (cat_of (e_res e)) as [c|]; [|destruct g; exact H].
   destruct H. constructor; cbn; auto.
@@ -312,12 +356,14 @@ Proof.
 Qed.
 
 Ltac sfields :=
-  cbn [g_st g_ev g_low g_raised g_clock cur_id cur db lim_ms enabled with_cur with_conf].
+  cbn [g_st g_ev g_low g_raised g_clock g_phase cur_id cur db lim_ms enabled dbnil with_cur with_conf with_nil].
 
 Lemma inv_flush g id : Inv g -> g_clock g <= id < max_id -> Inv (gstep g (OFlush id)).
 Proof.
-  intros H Hc. unfold gstep; cbn [op_id step ev_step low_step raised_step]. unfold flush.
+  intros H Hc. unfold gstep; cbn [op_id step ev_step low_step raised_step phase_step]. unfold flush.
   destruct ((lim (g_st g) =? 0) || (cur_id (g_st g) =? id)) eqn:E.
+  { cbn [orb]. apply inv_clock; assumption. }
+  cbn [orb]. destruct (dbnil (g_st g)) eqn:Enil.
   { apply inv_clock; assumption. }
   apply orb_false_iff in E. destruct E as [_ E]. apply Z.eqb_neq in E.
   destruct H. pose proof (lim_bounds _ i_lim0) as HL. fold (lim (g_st g)) in HL.
@@ -333,7 +379,7 @@ Proof.
     destruct (Z.eqb_spec i (cur_id (g_st g))); [lia|]. intros G. apply i_dbtop0 in G. lia.
   - intros i k Hi. rewrite db_get_del, db_get_put.
     destruct (Z.eqb_spec i (id - lim (g_st g))); [left; lia|].
-    destruct (Z.eqb_spec i (cur_id (g_st g))) as [->|Ne]; [apply i_cur0|].
+    destruct (Z.eqb_spec i (cur_id (g_st g))) as [->|Ne]; [rewrite proj_ser; apply i_cur0|].
     destruct (Z_lt_le_dec i (cur_id (g_st g))) as [Lt|Ge].
     + specialize (i_db0 i k Lt). destruct (db_get i (db (g_st g))); [assumption|].
       destruct i_db0; [left; lia|right; assumption].
@@ -343,22 +389,28 @@ Proof.
   - assumption.
   - assumption.
   - intros Hr. specialize (i_low0 Hr). unfold lim in *; sfields. lia.
+  - rewrite <- i_nil0, Enil. reflexivity.
+  - intros _. rewrite db_get_del, db_get_put.
+    destruct (id =? id - lim (g_st g)); [reflexivity|].
+    destruct (Z.eqb_spec id (cur_id (g_st g))); [lia|].
+    destruct (db_get id (db (g_st g))) eqn:G; [|reflexivity]. apply i_dbtop0 in G. lia.
 Qed.
 
-Lemma inv_restart g id : Inv g -> g_clock g <= id < max_id -> Inv (gstep g (ORestart id)).
+Lemma inv_restart g id :
+  Inv g -> g_clock g <= id < max_id -> g_phase g = PNormal -> Inv (gstep g (ORestart id)).
 Proof.
-  intros H Hc. unfold gstep; cbn [op_id step ev_step low_step raised_step].
+  intros H Hc Hp. unfold gstep; cbn [op_id step ev_step low_step raised_step phase_step].
   unfold restart, open_db, close_db.
   destruct H. pose proof (lim_bounds _ i_lim0) as HL. fold (lim (g_st g)) in *.
   unfold min_id, max_id in *.
   rewrite u32_small by lia.
   assert (Hcur : forall k,
     proj k match db_get id (db_del_below (id - lim (g_st g) - 1)
-                   (db_put (cur_id (g_st g)) (cur (g_st g)) (db (g_st g)))) with
+                   (db_put (cur_id (g_st g)) (ser (cur (g_st g))) (db (g_st g)))) with
            | Some u => u | None => empty_unit end = g_ev g id k).
   { intros k. rewrite db_get_del_below, db_get_put.
     destruct (Z.leb_spec (id - lim (g_st g) - 1) id); [|lia].
-    destruct (Z.eqb_spec id (cur_id (g_st g))) as [->|Ne]; [apply i_cur0|].
+    destruct (Z.eqb_spec id (cur_id (g_st g))) as [->|Ne]; [rewrite proj_ser; apply i_cur0|].
     destruct (db_get id (db (g_st g))) eqn:G.
     - apply i_dbtop0 in G. lia.
     - rewrite proj_empty. symmetry. apply i_future0. lia. }
@@ -372,7 +424,7 @@ Proof.
     destruct (Z.eqb_spec i (cur_id (g_st g))); [lia|]. intros G. apply i_dbtop0 in G. lia.
   - intros i k Hi. rewrite db_get_del_below, db_get_put.
     destruct (Z.leb_spec (id - lim (g_st g) - 1) i); [|left; lia].
-    destruct (Z.eqb_spec i (cur_id (g_st g))) as [->|Ne]; [apply i_cur0|].
+    destruct (Z.eqb_spec i (cur_id (g_st g))) as [->|Ne]; [rewrite proj_ser; apply i_cur0|].
     destruct (Z_lt_le_dec i (cur_id (g_st g))) as [Lt|Ge].
     + specialize (i_db0 i k Lt). destruct (db_get i (db (g_st g))); [assumption|].
       destruct i_db0; [left; lia|right; assumption].
@@ -382,6 +434,56 @@ Proof.
   - assumption.
   - assumption.
   - intros Hr. specialize (i_low0 Hr). unfold lim in *; sfields. lia.
+  - rewrite Hp. split; discriminate.
+  - rewrite Hp. discriminate.
+Qed.
+
+(** The three steps of the reset. *)
+Lemma inv_clear_close g : Inv g -> Inv (gstep g OClearClose).
+Proof.
+  intros []. unfold gstep; cbn [op_id step ev_step low_step raised_step phase_step]. unfold clear_close.
+  constructor; sfields; auto.
+  - split; reflexivity.
+  - discriminate.
+Qed.
+
+Lemma inv_clear_reopen g : Inv g -> Inv (gstep g OClearReopen).
+Proof.
+  intros []. pose proof (lim_bounds _ i_lim0) as HL.
+  unfold gstep; cbn [op_id step ev_step low_step raised_step phase_step]. unfold clear_reopen.
+  constructor; sfields; auto.
+  - intros i k Hi. destruct (Z.eqb_spec i (cur_id (g_st g))); [lia|reflexivity].
+  - intros k. rewrite Z.eqb_refl. apply i_cur0.
+  - intros i u. cbn. discriminate.
+  - intros i k Hi. cbn [db_get]. right. destruct (Z.eqb_spec i (cur_id (g_st g))); [lia|reflexivity].
+  - intros i k. destruct (i =? cur_id (g_st g)); [apply i_nonneg0|lia].
+  - intros i. destruct (i =? cur_id (g_st g)); [apply i_onecat0|reflexivity].
+  - intros _. unfold lim in *; sfields. unfold min_id in *. lia.
+  - split; discriminate.
+Qed.
+
+Lemma inv_clear_finish g id :
+  Inv g -> g_clock g <= id < max_id -> g_phase g = PReopened -> Inv (gstep g (OClearFinish id)).
+Proof.
+  intros [] Hc Hp. specialize (i_reop0 Hp).
+  unfold gstep; cbn [op_id step ev_step low_step raised_step phase_step]. unfold clear_finish.
+  constructor; sfields; auto.
+  - lia.
+  - intros i k Hi. destruct (Z.eqb_spec i (cur_id (g_st g))); [reflexivity|]. apply i_future0. lia.
+  - intros k. rewrite proj_empty. destruct (Z.eqb_spec id (cur_id (g_st g))); [reflexivity|].
+    symmetry. apply i_future0. lia.
+  - intros i u G. pose proof (i_dbtop0 _ _ G). lia.
+  - intros i k Hi. destruct (Z.eqb_spec i (cur_id (g_st g))) as [->|Ne].
+    + rewrite i_reop0. right; reflexivity.
+    + destruct (Z_lt_le_dec i (cur_id (g_st g))) as [Lt|Ge]; [apply i_db0; assumption|].
+      destruct (db_get i (db (g_st g))) eqn:G.
+      * apply i_dbtop0 in G. lia.
+      * right. apply i_future0. lia.
+  - intros i k. destruct (i =? cur_id (g_st g)); [lia|apply i_nonneg0].
+  - intros i. destruct (i =? cur_id (g_st g)); [reflexivity|apply i_onecat0].
+  - intros Hr. specialize (i_low0 Hr). unfold lim in *; sfields. lia.
+  - split; [|discriminate]. intros E. apply i_nil0 in E. congruence.
+  - discriminate.
 Qed.
 
 Lemma checked_days_valid d : checked_days d = true -> d <> 0 -> valid_ivl (d * ms_day) = true.
@@ -390,34 +492,37 @@ Proof.
   intros [[[[->| ->]| ->]| ->]| ->] Hd; try reflexivity. contradiction.
 Qed.
 
-Lemma inv_step g o : Inv g -> op_ok (g_clock g) o -> Inv (gstep g o).
+Lemma inv_step g o : Inv g -> op_ok g o -> Inv (gstep g o).
 Proof.
-  intros H Hok. destruct o as [e|id|id|id|d id|ms en]; unfold op_ok in Hok; cbn [op_id] in Hok.
+  intros H [Hph Hok]. destruct o as [e|id|id|id|d id|ms en| | |id]; cbn [op_id phase_ok] in Hok, Hph.
   - apply inv_update; assumption.
   - apply inv_flush; assumption.
   - apply inv_restart; assumption.
-  - exact (inv_clear g id (enabled (g_st g)) H Hok).
-  - unfold gstep; cbn [op_id step ev_step low_step raised_step]. unfold set_limit_days.
+  - exact (inv_clear g id (enabled (g_st g)) H Hok Hph).
+  - unfold gstep; cbn [op_id step ev_step low_step raised_step phase_step]. unfold set_limit_days.
     destruct (checked_days d) eqn:C; cbn [negb].
     + destruct (Z.eqb_spec d 0) as [->|Nd].
-      * exact (inv_clear g id false H Hok).
+      * exact (inv_clear g id false H Hok Hph).
       * exact (inv_conf g id (d * ms_day) true H Hok (checked_days_valid d C Nd)).
     + destruct (Z.eqb_spec d 0) as [->|Nd]; [discriminate C|].
       rewrite Z.ltb_irrefl, orb_false_r. apply inv_clock; assumption.
-  - unfold gstep; cbn [op_id step ev_step low_step raised_step]. unfold put_config.
+  - unfold gstep; cbn [op_id step ev_step low_step raised_step phase_step]. unfold put_config.
     assert (Hc : g_clock g <= g_clock g < max_id) by (destruct H; lia).
     destruct (valid_ivl ms) eqn:V.
     + exact (inv_conf g (g_clock g) ms en H Hc V).
     + rewrite Z.ltb_irrefl, orb_false_r. destruct g; exact H.
+  - apply inv_clear_close; assumption.
+  - apply inv_clear_reopen; assumption.
+  - apply inv_clear_finish; assumption.
 Qed.
 
-Lemma inv_run h : forall g, Inv g -> wf_hist (g_clock g) h -> Inv (grun g h).
+Lemma inv_run h : forall g, Inv g -> wf_from (g_clock g) (g_phase g) h -> Inv (grun g h).
 Proof.
   induction h as [|o h IH]; intros g H W; [exact H|].
   change (grun g (o :: h)) with (grun (gstep g o) h).
-  cbn [wf_hist] in W.
-  assert (Hok : op_ok (g_clock g) o /\ wf_hist (g_clock (gstep g o)) h).
-  { unfold op_ok, gstep; cbn [g_clock]. destruct (op_id o); tauto. }
+  cbn [wf_from] in W. destruct W as [Wp W].
+  assert (Hok : op_ok g o /\ wf_from (g_clock (gstep g o)) (g_phase (gstep g o)) h).
+  { unfold op_ok, gstep; cbn [g_clock g_phase]. destruct (op_id o); tauto. }
   apply IH; [apply inv_step; tauto|tauto].
 Qed.
 
@@ -638,7 +743,7 @@ Proof.
     destruct (db_get i (db (g_st g))).
     + rewrite i_db0. apply i_nonneg0.
     + rewrite proj_empty. lia.
-  - constructor; [|constructor]. rewrite i_cur0. apply i_nonneg0.
+  - constructor; [|constructor]. rewrite proj_ser, i_cur0. apply i_nonneg0.
 Qed.
 
 (** [C09_daily_le_total] (reachable states, hourly or daily): no series sums
@@ -656,6 +761,63 @@ Proof.
   - exact (loaded_nonneg g (CCat F) HI).
   - exact (loaded_nonneg g (CCat SB) HI).
   - exact (loaded_nonneg g (CCat P) HI).
+Qed.
+
+(** * Serialisation is idempotent *)
+
+Lemma filter_filter_length {A} (f g : A -> bool) l :
+  (length (filter f (filter g l)) <= length (filter f l))%nat.
+Proof.
+  induction l as [|a l IH]; cbn [filter]; [lia|].
+  destruct (g a); cbn [filter]; destruct (f a); cbn [length]; lia.
+Qed.
+
+Lemma filter_id {A} (f : A -> bool) l : (forall x, In x l -> f x = true) -> filter f l = l.
+Proof.
+  induction l as [|a l IH]; intros H; cbn [filter]; [reflexivity|].
+  rewrite (H a) by (left; reflexivity). f_equal. apply IH. intros; apply H; right; assumption.
+Qed.
+
+Lemma cut100_idem m : cut100 (cut100 m) = cut100 m.
+Proof.
+  destruct (Z.leb_spec (Z.of_nat (length m)) max_top) as [Le|Gt].
+  - assert (E : cut100 m = m).
+    { unfold cut100. destruct (Z.leb_spec (Z.of_nat (length m)) max_top); [reflexivity|lia]. }
+    rewrite !E. reflexivity.
+  - set (m' := filter (fun b => rank m b <? max_top) m).
+    assert (E : cut100 m = m').
+    { unfold cut100. destruct (Z.leb_spec (Z.of_nat (length m)) max_top); [lia|reflexivity]. }
+    rewrite E. unfold cut100.
+    destruct (Z.of_nat (length m') <=? max_top); [reflexivity|].
+    apply filter_id. intros b Hb. apply filter_In in Hb. destruct Hb as [_ Hb].
+    apply Z.ltb_lt in Hb. apply Z.ltb_lt.
+    pose proof (filter_filter_length (fun a => before a b) (fun b => rank m b <? max_top) m) as H.
+    fold m' in H. unfold rank at 1. unfold rank in Hb. lia.
+Qed.
+
+Lemma u32_idem x : u32 (u32 x) = u32 x.
+Proof. unfold u32. apply Z.mod_mod. lia. Qed.
+
+Lemma time_avg_ser u : time_avg (ser u) = time_avg u.
+Proof.
+  unfold time_avg at 1. cbn [ser u_total u_tsum].
+  destruct (Z.eqb_spec (u_total u) 0) as [E|N].
+  - unfold time_avg. rewrite E. reflexivity.
+  - rewrite Z.div_mul by assumption. unfold time_avg.
+    destruct (Z.eqb_spec (u_total u) 0); [contradiction|]. apply u32_idem.
+Qed.
+
+Lemma ser_idem u : ser (ser u) = ser u.
+Proof.
+  unfold ser at 1. rewrite time_avg_ser. cbn [ser u_total u_nf u_f u_sb u_ss u_p u_dom u_blk u_cli u_up].
+  rewrite !cut100_idem. reflexivity.
+Qed.
+
+(** The cut only removes pairs: every name it keeps has its own count. *)
+Lemma cut100_incl m : incl (cut100 m) m.
+Proof.
+  unfold cut100. destruct (_ <=? _); [apply incl_refl|].
+  intros x Hx. apply filter_In in Hx. tauto.
 Qed.
 
 (** * Restart *)
@@ -679,7 +841,7 @@ Proof.
     destruct (Z.eqb_spec i (cur_id s)); [lia|reflexivity].
   - f_equal. unfold restart, open_db, close_db. cbn [cur]. fold (lim s).
     rewrite u32_small by lia. rewrite db_get_del_below, db_get_put, Z.eqb_refl.
-    destruct (Z.leb_spec (cur_id s - lim s - 1) (cur_id s)); [reflexivity|lia].
+    destruct (Z.leb_spec (cur_id s - lim s - 1) (cur_id s)); [apply ser_idem|lia].
 Qed.
 
 Lemma get_data_ext s s' :
@@ -689,14 +851,14 @@ Proof. intros E C. unfold get_data. rewrite E, C. reflexivity. Qed.
 (** [C09_restart]: close; new preserves the invariant with the same events
     (the abstraction is unchanged); in the same hour the answers are equal. *)
 Lemma restart_preserves g id :
-  Inv g -> g_clock g <= id < max_id ->
+  Inv g -> g_clock g <= id < max_id -> g_phase g = PNormal ->
   Inv (gstep g (ORestart id)) /\
   g_ev (gstep g (ORestart id)) = g_ev g /\
   (id = cur_id (g_st g) ->
    get_data (restart (g_st g) id) = get_data (g_st g) /\
    num_nf (restart (g_st g) id) = num_nf (g_st g)).
 Proof.
-  intros HI Hc. split; [apply inv_restart; assumption|]. split; [reflexivity|].
+  intros HI Hc Hp. split; [apply inv_restart; assumption|]. split; [reflexivity|].
   intros ->. destruct (restart_same_hour g HI) as [E [C _]]. split.
   - apply get_data_ext; assumption.
   - unfold num_nf. rewrite E. reflexivity.
@@ -742,7 +904,7 @@ Qed.
 
 (** * The premises are satisfiable, the conclusions not vacuous *)
 
-Definition ex_e (r : Z) : entry := {| e_res := r; e_dom := 1; e_cli := 2; e_ups := [(1, true)] |}.
+Definition ex_e (r : Z) : entry := {| e_res := r; e_dom := 1; e_cli := 2; e_ups := [(1, true)]; e_time := 1500 |}.
 Definition ex_all5 := [OUpdate (ex_e 1); OUpdate (ex_e 2); OUpdate (ex_e 3); OUpdate (ex_e 4); OUpdate (ex_e 5)].
 
 (** Three hours with five updates each under a 48 h limit; the limit is
@@ -762,7 +924,7 @@ Example conservation_premises :
   wsum s (fun i => if i <=? g_low g then 0 else g_ev g i CTotal) = 0 /\ g_raised g = true.
 Proof.
   split; [split; [unfold min_id, max_id; lia|reflexivity]|].
-  split; [cbn [wf_hist op_id ex_hist ex_all5 app]; unfold max_id; lia|].
+  split; [unfold wf_hist; cbn [wf_from op_id phase_ok phase_step ex_hist ex_all5 app]; unfold max_id; repeat split; lia|].
   vm_compute. repeat split.
 Qed.
 
@@ -778,7 +940,7 @@ Example conservation_exact_premises :
   g_raised g = false /\ rep CTotal s = 7 /\ wsum s (fun i => g_ev g i CTotal) = 7 /\
   rep (CCat F) s = 2 /\ zsum (d_dns (get_data s)) = 7 /\ d_days (get_data s) = false.
 Proof.
-  split; [cbn [wf_hist op_id ex_hist2 ex_all5 app]; unfold max_id; lia|].
+  split; [unfold wf_hist; cbn [wf_from op_id phase_ok phase_step ex_hist2 ex_all5 app]; unfold max_id; repeat split; lia|].
   vm_compute. repeat split.
 Qed.
 
@@ -820,20 +982,22 @@ Qed.
 (** * Restart in a later hour reads like the hourly flush *)
 
 Lemma restart_later_hour g id :
-  Inv g -> cur_id (g_st g) < id < max_id ->
+  Inv g -> cur_id (g_st g) < id < max_id -> g_phase g = PNormal ->
   load_units (restart (g_st g) id) = load_units (flush (g_st g) id) /\
   cur_id (restart (g_st g) id) = cur_id (flush (g_st g) id).
 Proof.
-  intros HI Hid. destruct (inv_bounds g HI) as [Hc HL]. destruct HI.
+  intros HI Hid Hp. destruct (inv_bounds g HI) as [Hc HL]. destruct HI.
   unfold min_id, max_id in *.
+  assert (Hnil : dbnil (g_st g) = false).
+  { destruct (dbnil (g_st g)); [|reflexivity]. destruct i_nil0 as [N _]. specialize (N eq_refl). congruence. }
   unfold flush. destruct (Z.eqb_spec (lim (g_st g)) 0) as [E0|_]; [lia|].
-  destruct (Z.eqb_spec (cur_id (g_st g)) id) as [E1|_]; [lia|]. cbn [orb].
+  destruct (Z.eqb_spec (cur_id (g_st g)) id) as [E1|_]; [lia|]. cbn [orb]. rewrite Hnil.
   split; [|reflexivity].
   unfold load_units. f_equal.
   - assert (W : window_ids (restart (g_st g) id) =
                 window_ids (with_cur (g_st g) id empty_unit
                   (db_del (u32 (id - lim (g_st g)))
-                     (db_put (cur_id (g_st g)) (cur (g_st g)) (db (g_st g)))))) by reflexivity.
+                     (db_put (cur_id (g_st g)) (ser (cur (g_st g))) (db (g_st g)))))) by reflexivity.
     rewrite W. rewrite window_ids_nowrap by (unfold min_id, max_id, lim in *; cbn; lia).
     apply map_ext_in. intros i Hi. apply zseq_In in Hi. cbn [cur_id with_cur] in Hi.
     change (lim (with_cur (g_st g) id empty_unit _)) with (lim (g_st g)) in Hi.
@@ -861,6 +1025,7 @@ Example daily_premises :
   d_days d = true /\ zsum (d_dns d) = 3 /\ d_num d = 8 /\ length (d_dns d) = 8%nat /\
   zsum (d_blocked d) = 2 /\ d_num_f d = 3.
 Proof.
-  split; [cbn [wf_hist op_id ex_hist3 ex_all5 app]; unfold max_id; lia|].
+  split; [unfold wf_hist; cbn [wf_from op_id phase_ok phase_step ex_hist3 ex_all5 app]; unfold max_id; repeat split; lia|].
   vm_compute. repeat split.
 Qed.
+
